@@ -116,6 +116,26 @@ def soak_case(rng, cid, wraps, si):
     return lines
 
 
+def slow_soak_case(cid, extra=200):
+    """both endpoints emit once per second for a little more than 65536 s: the datagram sequence numbers of both wrap once while the
+    clock's low 16 bits of seconds wrap once - emission j and emission j + 65535 (j a multiple of 64) are exactly 65536 s apart with the same
+    seq and ack: only the upper half of the 32-bit send-time field keeps their nonces apart"""
+    lines = ["case %s" % cid, "mtu 1500", "new a client", "new b server"]
+    for e in "ab":
+        lines.append("set %s key=%s status=2 si=16 ka=96 ot=1024" % (e, connlib.KEY.hex()))
+    t = connlib.BASE_T
+    lines.append("now %d" % t)
+    for i in range(65535 + extra):
+        t += 1024 + (1 if i % 64 == 0 else 0)
+        lines.append("build a t=%d" % t)
+        lines.append("recv b t=%d d=@a:%d" % (t, i))
+        lines.append("build b t=%d" % t)
+        lines.append("recv a t=%d d=@b:%d" % (t, i))
+    lines.append("dump a")
+    lines.append("end")
+    return lines
+
+
 def run(ctx):
     real = connlib.Real()
     rng = ctx.rng
@@ -128,6 +148,8 @@ def run(ctx):
                                            disc=0.01 if i % 5 == 0 else 0.0))
     # soak: several wraps at the rate cap (quick: a bit more than one wrap; thorough: four)
     cases.append(soak_case(rng, "soak", ctx.scale(1.05, 4.2), 16))
+    # slow soak: one datagram per second and side across a wrap of the sequence numbers AND of the low 16 bits of the clock's seconds
+    cases.append(slow_soak_case("slowsoak"))
     real2 = connlib.Real()
 
     def nontrivial(case, outs):
